@@ -150,3 +150,35 @@ def parse_dump(path: str, variables=None):
             if variables is None or name in variables:
                 state[name] = parse(val)
         yield state
+
+
+_DOT_NODE = re.compile(r'^(-?\d+) \[label="(.*)"(?:,style = filled)?\]\s*;?\s*$')
+_DOT_EDGE = re.compile(r'^(-?\d+) -> (-?\d+) \[label="([^"]*)"')
+
+
+def parse_dot(path: str, variables=None):
+    """Parse a TLC `-dump dot,actionlabels` graph.
+    Returns (nodes: id -> {var: value}, edges: [(src, dst, action label)], init ids)."""
+    nodes, edges, inits = {}, [], []
+    with open(path) as fh:
+        for line in fh:
+            line = line.rstrip("\n")
+            m = _DOT_EDGE.match(line)
+            if m:
+                edges.append((m.group(1), m.group(2), m.group(3)))
+                continue
+            m = _DOT_NODE.match(line)
+            if m:
+                label = m.group(2).replace("\\n", "\n").replace('\\"', '"').replace("\\\\", "\\")
+                state = {}
+                for chunk in re.split(r"^/\\ ", label, flags=re.M):
+                    chunk = chunk.strip()
+                    if not chunk:
+                        continue
+                    name, _, val = chunk.partition(" = ")
+                    if variables is None or name in variables:
+                        state[name] = parse(val)
+                nodes[m.group(1)] = state
+                if "style = filled" in line:
+                    inits.append(m.group(1))
+    return nodes, edges, inits
